@@ -188,12 +188,18 @@ def classify(b, local, fault_variants=("Err",), depth=0, seen=None):
                 for x in pu:
                     if x["kind"] == "arg":
                         c = x["term"]["callee"]
-                        outs.append(Outcome("handled", "%s payload passed to %s" % (fv, c.get("path", "?")), x["term"].get("span"), via=["match"]))
+                        if "path" in c and callee_key(c) in ("mem::drop",):
+                            outs.append(Outcome("discarded", "%s payload is only dropped" % fv, x["term"].get("span")))
+                        else:
+                            outs.append(Outcome("handled", "%s payload passed to %s" % (fv, c.get("path", "?")), x["term"].get("span"), via=["match"]))
                     elif x["kind"] == "stmt":
                         dst = x["st"]["pl"]
                         if not dst["p"] and dst["l"] != 0:
                             sub = payload_flow(b, dst["l"])
-                            outs.append(Outcome("handled", "%s payload bound -> %s" % (fv, sub), x["st"].get("span"), via=["match"]))
+                            if sub in ("dropped", "drop -> dropped", "drop -> …"):
+                                outs.append(Outcome("discarded", "%s payload bound but only dropped" % fv, x["st"].get("span")))
+                            else:
+                                outs.append(Outcome("handled", "%s payload bound -> %s" % (fv, sub), x["st"].get("span"), via=["match"]))
                         else:
                             outs.append(Outcome("handled", "%s payload stored" % fv, x["st"].get("span"), via=["match"]))
             else:
